@@ -24,6 +24,7 @@ import (
 	"verifharness/drv"
 	"verifharness/gen"
 	"verifharness/memstore"
+	"verifharness/sparsestore"
 )
 
 // C04 — bundle upload then download reproduces the uploaded tree.
@@ -38,6 +39,9 @@ type params struct {
 	SkipMiss bool           `json:"skip_missing"`
 	PredKind string         `json:"predicate,omitempty"` // prefix:<p> | suffix:<s> | hashmod:<m>:<r>
 	Seed     int64          `json:"seed"`
+	// mode huge: one file of HugeLeaves leaves + HugeTail bytes
+	HugeLeaves int `json:"huge_file_leaves,omitempty"`
+	HugeTail   int `json:"huge_file_tail_bytes,omitempty"`
 }
 
 const MiB = 1 << 20
@@ -134,6 +138,13 @@ func gen04(seed int64, tier string) []drv.Case {
 		leaf := []int{64, 4096}[r.Intn(2)]
 		ts := coreh.GenTree(r, r.Int63(), 2+r.Intn(6), coreh.TreeOpt{Leaf: leaf, DupRatio: 3, Decoys: i%2 == 0})
 		add("store-fault", params{Tree: ts, Leaf: uint32(leaf), UpConc: upC[r.Intn(4)], DownConc: dnC[r.Intn(4)], Mode: "fault"})
+	}
+	// a file of 4 GiB and more (offsets beyond 32 bits), through a sparse blob store: thorough tier only here (C17 runs
+	// one on its quick tier through the same download code)
+	if tier == "thorough" {
+		for i := 0; i < 2; i++ {
+			add("file>=4GiB", params{Leaf: 2 * MiB, UpConc: 2, DownConc: 2, Mode: "huge", HugeLeaves: 2048 + []int{2, 17}[i], HugeTail: []int{0, 4321}[i]})
+		}
 	}
 	return cs
 }
@@ -368,6 +379,103 @@ func sigOf(what string) string {
 	return strings.Join(strings.Fields(b.String()), "-")
 }
 
+// runHuge04: one file of HugeLeaves 2 MiB leaves + HugeTail bytes goes up and comes down again (hash verification on,
+// then off); the downloaded file is compared around every sampled leaf boundary.
+func runHuge04(p params, res *drv.Result) {
+	env := coreh.NewEnv(memstore.Config{})
+	blob := sparsestore.New("blob")
+	env.BlobOverride = blob
+	if err := env.CreateRepo(nil, "repo"); err != nil {
+		panic(err)
+	}
+	L := int64(p.Leaf)
+	size := int64(p.HugeLeaves)*L + int64(p.HugeTail)
+	g := sparsestore.MarkedLeaves(p.Seed, L)
+	src := sparsestore.New("src")
+	src.AddVirtual("big/huge.bin", size, g)
+	src.AddVirtual("small.txt", 300, sparsestore.MarkedLeaves(p.Seed+1, 100))
+	id, err := env.Upload(nil, "repo", src, coreh.UploadOpts{Leaf: p.Leaf, Concurrency: p.UpConc})
+	if err != nil {
+		res.Violate("upload-failed", "file>=4GiB", "upload of a %d byte file failed: %v", size, err)
+		return
+	}
+	_, entries, err := env.Entries(nil, "repo", id)
+	if err != nil {
+		res.Violate("entries-unreadable", "file>=4GiB", "%v", err)
+		return
+	}
+	for _, e := range entries {
+		if norm(e.NameWithPath) == "big/huge.bin" && int64(e.Size) != size {
+			res.Violate("entry-size", "file>=4GiB", "bundle entry of the %d byte file says %d bytes", size, e.Size)
+			return
+		}
+	}
+	r := rand.New(rand.NewSource(p.Seed))
+	for _, verify := range []bool{true, false} {
+		what := fmt.Sprintf("Publish(verify-hash=%v)", verify)
+		dir := tmp("c04-huge-")
+		b := core.NewBundle(core.Repo("repo"), core.ContextStores(env.Stores(nil)), core.BundleID(id), core.Logger(coreh.Nop),
+			core.ConsumableStore(coreh.LocalFS(dir)), core.ConcurrentFileDownloads(p.DownConc), core.BundleWithVerifyHash(verify))
+		if err := core.Publish(context.Background(), b); err != nil {
+			os.RemoveAll(dir)
+			res.Violate("download-failed", what+"|file>=4GiB", "%s of a bundle with a %d byte file failed: %v", what, size, err)
+			return
+		}
+		f, err := os.Open(dir + "/big/huge.bin")
+		if err != nil {
+			os.RemoveAll(dir)
+			res.Violate("download-missing-file", what+"|file>=4GiB", "%s: %v", what, err)
+			return
+		}
+		st, _ := f.Stat()
+		bad := ""
+		if st.Size() != size {
+			bad = fmt.Sprintf("the downloaded file has %d bytes, the uploaded one %d", st.Size(), size)
+		}
+		leaves := []int64{0, 1, 2, 1023, 1024, 2046, 2047, 2048, 2049, int64(p.HugeLeaves) - 1, int64(p.HugeLeaves)}
+		for i := 0; i < 40; i++ {
+			leaves = append(leaves, r.Int63n(int64(p.HugeLeaves)+1))
+		}
+		for _, li := range leaves {
+			off := li*L - 40
+			if off < 0 {
+				off = 0
+			}
+			if off >= size || bad != "" {
+				continue
+			}
+			want := make([]byte, 120)
+			if int64(len(want)) > size-off {
+				want = want[:size-off]
+			}
+			g(off, want)
+			got := make([]byte, len(want))
+			n, _ := f.ReadAt(got, off)
+			res.Stat("huge_file_reads", 1)
+			if !bytes.Equal(got[:n], want) {
+				bad = fmt.Sprintf("bytes [%d,%d) (around the start of leaf %d) differ from the uploaded file: got %x…, uploaded %x…", off, off+int64(len(want)), li, got[:minInt(n, 24)], want[:minInt(len(want), 24)])
+			}
+		}
+		f.Close()
+		os.RemoveAll(dir)
+		if bad != "" {
+			res.Violate("download-mismatch", what+"|file>=4GiB", "%s: %s", what, bad)
+			return
+		}
+		res.Stat("huge_file_downloads", 1)
+	}
+	res.Nontrivial = true
+	res.Seen("leaf_size", fmt.Sprint(p.Leaf))
+	res.Sample = map[string]interface{}{"mode": "huge", "file_bytes": size, "leaves": p.HugeLeaves, "blob_bytes_sent": blob.BytesPut, "blob_bytes_kept_by_sparse_store": blob.BytesKept}
+}
+
+func minInt(a, b int) int {
+	if a < b {
+		return a
+	}
+	return b
+}
+
 func run04(c drv.Case, res *drv.Result) {
 	var p params
 	drv.Params(c, &p)
@@ -375,6 +483,11 @@ func run04(c drv.Case, res *drv.Result) {
 	if p.Mode == "fault" {
 		res.Canon = string(c.Params)
 		runFault04(p, res)
+		return
+	}
+	if p.Mode == "huge" {
+		res.Canon = string(c.Params)
+		runHuge04(p, res)
 		return
 	}
 	// the store's readers hand blobs out whole, in small pieces, and/or with their last bytes together with io.EOF
